@@ -16,6 +16,7 @@ class NativeResult:
         self.status = 'unknown'   # success | failed | undecided
         self.output = ''
         self.cases = 0
+        self.findings = []      # (tag, text) from `FINDING: [tag] ...` lines
         self.time_s = 0.0
 
 
@@ -52,6 +53,7 @@ def run_bins(scratch, bins, timeout=900):
             q = subprocess.run([os.path.join(TARGET_DIR, 'release', b)], cwd=dst, capture_output=True, text=True, timeout=timeout)
             out = q.stdout + q.stderr
             r.output = out[-4000:]
+            r.findings = [(m.group(1), m.group(0) + out[m.end():m.end() + 600].split('FINDING:')[0].split('BOUNDED-OK')[0].rstrip()) for m in re.finditer(r'FINDING: \[([\w.\-]+)\][^\n]*', out)]
             m = re.search(r'BOUNDED-OK cases=(\d+)', out)
             if q.returncode == 0 and m:
                 r.status = 'success'
